@@ -251,7 +251,9 @@ class World(WsWorld):
         cfg["spec"] = ch.pick((18, 10, 11, 12, 13, 14, 15, 16, 17), "spec")
         cfg["sversions"] = ch.pick(([8, 13], [13], [8], [13, 8]), "sversions")
         cfg["cprotos"] = ch.pick((None, ["a"], ["a", "b"], ["b", "a"], ["x.y-z", "b"]), "cprotos")
-        cfg["sprotos"] = ch.pick(("first", "none", "b-if-offered"), "spolicy")
+        # ("foreign": the server application names a subprotocol the client never offered - in either form of the
+        # onConnect() result; the server must not complete the handshake with it)
+        cfg["sprotos"] = ch.pick(("first", "none", "b-if-offered", "foreign"), "spolicy", (3, 3, 3, 1.5))
         cfg["cheaders"] = ch.pick((None, {"X-A": "1"}, {"X-A": "1", "Cookie": "k=v; l=w"}), "cheaders")
         cfg["sheaders"] = ch.pick((None, {"X-S": "1"}, {"X-S": ["1", "2"], "Set-Cookie": "a=b"}), "sheaders")
         cfg["onconnect_headers"] = ch.flag("onconnect-headers", 0.3)
@@ -301,6 +303,9 @@ class World(WsWorld):
                 proto = req.protocols[0]
             elif cfg["sprotos"] == "b-if-offered" and "b" in req.protocols:
                 proto = "b"
+            elif cfg["sprotos"] == "foreign":
+                proto = "never-offered.v9"
+                self.run.probe("server-application-names-a-foreign-subprotocol")
             if cfg["onconnect_headers"]:
                 return (proto, {"X-From-OnConnect": "yes"})
             return proto
@@ -946,6 +951,17 @@ class World(WsWorld):
             port = u.port or {"http": 80, "https": 443}.get(u.scheme)
             full = "%s://%s:%s" % (u.scheme, u.hostname, port)
             origin_ok = any(fnmatch.fnmatchcase(full, p) for p in cfg["allowed"])
+        if cfg["sprotos"] == "foreign" and self.compatible and origin_ok:
+            # the server's own application made the handshake impossible to complete: no 101 naming that subprotocol,
+            # no open connection on either side
+            rline, rhdrs = parse_http(bytes(s.http_out)) if s.http_out else (b"", [])
+            sp_w = hget(rhdrs, b"sec-websocket-protocol") if s.http_out else None
+            if rline.startswith(b"HTTP/1.1 101") and sp_w:
+                run.violate(self.P + ".accept-digest", "subprotocol-not-offered", repr(sp_w))
+            if s_open or c_open:
+                run.violate(self.P + ".accept-iff-valid", "opened-with-a-subprotocol-the-client-never-offered", "c=%s s=%s" % (c_open, s_open))
+            run.probe("pair-refused:foreign-subprotocol")
+            return
         if self.compatible and origin_ok:
             if not (c_open and s_open):
                 run.violate(self.P + ".own-peers-interoperate", "handshake-failed:c=%s,s=%s" % (c_open, s_open),
